@@ -38,6 +38,16 @@ def out_kind(F, b, region):
     return ks
 
 
+def _flows_to_ok_return(b, local):
+    """is `local` the payload of an Ok(..) assigned to the return place?"""
+    for bb, s_ in b.aggregates():
+        if s_[1] == [0] and s_[2][2] == 'std::result::Result' and s_[2][4] == 'Ok':
+            for o in s_[2][5]:
+                if o[0] in ('m', 'c') and o[1] and o[1][0] == local:
+                    return True
+    return False
+
+
 def run(F, rep, tier):
     reg = Registry(F)
     # ---------------- R13.1
@@ -291,6 +301,26 @@ def run(F, rep, tier):
                 rep.ok('R13.9', '%s combine #%d' % (ty9, k9), 'f(acc, element)')
             else:
                 rep.viol('R13.9', '%s|combine#%d|operand-order' % (ty9, k9), '%s::run calls the combining function with the element first and the accumulator second (first operand feedback=%s; second operand from iterator=%s, feedback=%s): `[1, 2, 3] %s - from 10` is wrong for every non-commutative function' % (ty9, fb1, el2, fb2, ty9.lower()), c.loc())
+    # ---------------- R13.10
+    rep.rule('R13.10', '`xs ** n` / cartesian products always build lists: CartesianProduct::run never hands back a Seq taken from its arguments '
+             'as the result (a string, vector, stream or dict would keep its kind for n = 1)')
+    cpr = '<CartesianProduct as core::Builtin>::run'
+    if not F.has_fn(cpr):
+        rep.error('R13.10', cpr + ' missing')
+    else:
+        cpb = F.body(cpr)
+        back = []
+        for bb, s_ in cpb.aggregates():
+            if s_[2][2] == 'core::Obj' and s_[2][4] == 'Seq' and s_[2][5]:
+                og = origins(cpb, s_[2][5][0], passthru=('clone',))
+                if og and all(o[0] in ('payload', 'param') for o in og):
+                    # re-wrapping an argument: fine only when it flows into further processing, not into the return value
+                    if any(s2[0] == 'a' and s2[1] == [0] for s2 in cpb.stmts(bb)) or any(cpb.term(x)[0] == 'ret' for x in cpb.succ[bb]) or _flows_to_ok_return(cpb, s_[1][0]):
+                        back.append(bb)
+        if back:
+            rep.viol('R13.10', 'CartesianProduct|returns-argument', 'CartesianProduct::run returns one of its argument sequences unchanged: `\'ab\' ** 1` is the string itself instead of the list of its elements', cpb.loc(back[0]))
+        else:
+            rep.ok('R13.10', 'CartesianProduct::run', 'results are freshly built lists')
     rep.undecided += ['f(xs) == reference(xs) for map/filter/partition/flat_map/flatten/zip/window/group/fold/scan/... (value equations)',
                       'the complete enumeration order of permutations/combinations/subsequences beyond their first element']
     return META
